@@ -13,7 +13,7 @@ for i in ids:
     first = m.get('first_run', {}).get('checks') or fin
     def fmt(l):
         return ', '.join(f"{c['check']} {'**caught**' if c['detected'] else ('exit '+str(c['exit']) if c['exit'] not in (0,1) else 'missed')}" for c in l) or '-'
-    extra = m.get('cross', '')
+    extra = m.get('cross', '') or m.get('not_caught', '')
     sig = re.sub(r'\s+', ' ', m.get('check_output', ''))
     sm = re.search(r'(C\d\d/[^ ]+)', sig)
     rows.append(f"| {i} | {(m.get('summary') or '')[:170].replace('|','/')}... | {fmt(first)} | {fmt(fin)}{(' — ' + extra) if extra else ''} | `{sm.group(1) if sm else '-'}` |")
